@@ -164,13 +164,16 @@ func TestWorker(t *testing.T) {
 `
 
 // linTargets are the files that get a yield point before every statement (linsim).
-var linTargets = map[string]bool{"util/sync2/map.go": true, "util/list/concurrent_set.go": true, "util/list/generic_concurrent_set.go": true}
+var linTargets = map[string]bool{"util/sync2/map.go": true, "util/list/concurrent_set.go": true, "util/list/generic_concurrent_set.go": true,
+	"container/support/component_definition_registry.go": true}
 
 // copyLin copies util/sync2 and util/list from the current working tree of /repo into the
 // batch module (lin/sync2, lin/list) and instruments the target files.
 func copyLin(dir string) (int, error) {
 	points := 0
-	for _, pkg := range []string{"util/sync2", "util/list"} {
+	// container/support is copied too (the definition registry the scanner goroutines share),
+	// with its imports of the two utility packages redirected to the instrumented copies
+	for _, pkg := range []string{"util/sync2", "util/list", "container/support"} {
 		ents, err := os.ReadDir(filepath.Join(repoDir, pkg))
 		if err != nil {
 			return 0, err
@@ -182,6 +185,10 @@ func copyLin(dir string) (int, error) {
 			src, err := os.ReadFile(filepath.Join(repoDir, pkg, e.Name()))
 			if err != nil {
 				return 0, err
+			}
+			if pkg == "container/support" {
+				src = []byte(strings.NewReplacer(`"github.com/go-kid/ioc/util/sync2"`, `"verifbatch/lin/sync2"`,
+					`"github.com/go-kid/ioc/util/list"`, `"verifbatch/lin/list"`).Replace(string(src)))
 			}
 			if linTargets[pkg+"/"+e.Name()] {
 				out, n, err := gen.Instrument(e.Name(), src)
@@ -203,6 +210,7 @@ import (
 	"testing"
 
 	linlist "verifbatch/lin/list"
+	linsupport "verifbatch/lin/support"
 	linsync2 "verifbatch/lin/sync2"
 	"verifbatch/progs"
 	"verifsim/engine"
@@ -213,6 +221,7 @@ func TestWorker(t *testing.T) {
 		NewMap:  func() engine.LinMap { return linsync2.New[string, int]() },
 		NewSet:  func() engine.LinSet { return linlist.NewConcurrentSets() },
 		NewGSet: func() engine.LinSet { return linlist.NewGenericConcurrentSets[string]() },
+		NewDefReg: func() engine.LinDefReg { return linsupport.DefaultDefinitionRegistry() },
 	}})
 }
 `
